@@ -257,6 +257,22 @@ def run(ctx):
             ctx.violation('speckle_contrast of a uniform image of value %g is %r (expected 0)' % (val, u), {'value': val},
                           {'class': 'speckle_contrast', 'what': 'uniform_zero', 'nan': bool(math.isnan(u))})
 
+    # ---- ONE gaze list object updated in place by the caller between calls: every gaze-contingent loss returns what a new object returns for the current gaze
+    import odak.learn.perception as LPg
+    gg_ = torch.Generator().manual_seed(ctx.seed + 172)
+    img_g, tgt_g = torch.rand(1, 3, 64, 64, generator=gg_), torch.rand(1, 3, 64, 64, generator=gg_)
+    for nm_, mk_ in (('BlurLoss', lambda: LPg.BlurLoss()), ('MetamericLoss', lambda: LPg.MetamericLoss()), ('MetamerMSELoss', lambda: LPg.MetamerMSELoss())):
+        ob_, gl = mk_(), [0.7, 0.6]
+        for step_, (g0, g1) in enumerate(((0.7, 0.6), (0.1, 0.6), (0.1, 0.2), (0.1, 0.2), (0.9, 0.5))):
+            gl[0], gl[1] = g0, g1
+            ctx.case(('gaze_list_in_place', nm_, step_), True)
+            ctx.count('gaze list updated in place/' + nm_)
+            got_ = float(ob_(img_g, tgt_g, gaze=gl))
+            want_ = float(mk_()(img_g, tgt_g, gaze=[g0, g1]))
+            if abs(got_ - want_) > 1e-5 * max(1.0, abs(want_)):
+                ctx.violation('%s: after the caller updated its gaze list in place to %s the loss is %.8g, a new object returns %.8g for that gaze' % (nm_, [g0, g1], got_, want_),
+                              {'loss': nm_, 'gaze': [g0, g1], 'step': step_, 'gaze_list_in_place': True}, {'loss': nm_, 'what': 'gaze_list_in_place'})
+                break
     # ---- the value of a loss for float32 images (what load_image returns) does not depend on global settings of torch: default dtype float64 (a double
     # precision pipeline elsewhere in the program), grad mode switched off; each entry returns under these settings on the unchanged tree
     from ..lib import settings as ST
